@@ -413,3 +413,47 @@ def run_mode(binpath, mode, env_extra=None, timeout=1800, input=None, cwd=None):
         log("FATAL: harness mode", mode, "failed with", p.returncode)
         sys.exit(2)
     return json.loads(p.stdout.decode())
+
+
+# ---------------------------------------------------------------- engine D (linker protocol harness)
+
+def c17_overlay(repo=None):
+    """Overlay for the engine-D harness: shim packages, harness files, and linker.go with its os / os/exec /
+    lockedfile imports redirected to the shims (generated from the current working tree)."""
+    repo = repo or REPO
+    ov = {}
+    shim = os.path.join(VERIF, "harness/shim")
+    for pkg in ("sched", "vos", "vexec", "vlockedfile"):
+        for f in os.listdir(os.path.join(shim, pkg)):
+            ov[os.path.join(repo, "internal/verif", pkg, f)] = os.path.join(shim, pkg, f)
+    ov[os.path.join(repo, "internal/linker/zz_verif_c17.go")] = os.path.join(VERIF, "harness/c17/zz_verif_c17.go")
+    ov[os.path.join(repo, "internal/verif/c17main/main.go")] = os.path.join(VERIF, "harness/c17/main.go")
+    src = read(os.path.join(repo, "internal/linker/linker.go"))
+    n = 0
+    for a, b in (('\t"os"\n', '\tos "mvdan.cc/garble/internal/verif/vos"\n'), ('\t"os/exec"\n', '\texec "mvdan.cc/garble/internal/verif/vexec"\n'),
+                 ('\t"github.com/rogpeppe/go-internal/lockedfile"\n', '\tlockedfile "mvdan.cc/garble/internal/verif/vlockedfile"\n')):
+        if a in src:
+            n += 1
+        src = src.replace(a, b)
+    if n != 3:
+        log("FATAL: internal/linker/linker.go no longer imports os, os/exec and lockedfile as expected; the OS shim cannot be applied")
+        sys.exit(2)
+    gen = os.path.join(CACHE, "gen", "linker_shimmed_%s.go" % sha256(src)[:12])
+    write(gen, src)
+    ov[os.path.join(repo, "internal/linker/linker.go")] = gen
+    return ov
+
+
+def linker_unlock_order(repo=None):
+    """How the toolexec link step of main.go orders unlock and running the linker: 'after-run' (defer or none:
+    released at process exit) or 'before-run'. Extracted from the working tree so that the harness driver mirrors it."""
+    src = read(os.path.join(repo or REPO, "main.go"))
+    i = src.find("linker.PatchLinker(")
+    if i < 0:
+        log("FATAL: main.go does not call linker.PatchLinker any more")
+        sys.exit(2)
+    j = src.find("cmd.Run()", i)
+    seg = src[i:j if j > 0 else len(src)]
+    if re.search(r"^\s*unlock\(\)", seg, re.M):
+        return "before-run"
+    return "after-run"
